@@ -139,9 +139,12 @@ def impl(case):
         with installed(net):
             Base = counting_pool_class(HTTPConnectionPool, net)
             counter = {"n": 0}
+            flags = {"newconn_fails": False}
 
             class Pool(Base):
                 def _new_conn(self):
+                    if flags["newconn_fails"]:
+                        raise TypeError("the connection class rejects its arguments")
                     c = super()._new_conn()
                     c._verif_id = counter["n"]
                     counter["n"] += 1
@@ -166,6 +169,7 @@ def impl(case):
                 arg = None if a[0] == "none" else (False if a[0] == "false" else (a[1] if a[0] == "int" else c04.build_retry(a[1])))
                 body = b"payload" if rq["method"] in ("POST", "PUT") else None
                 resp = None
+                flags["newconn_fails"] = rq.get("newconn") == "raise"
                 try:
                     kw = {} if rq.get("release") is None else {"release_conn": rq["release"]}
                     if rq.get("wait") == "interrupt":
@@ -190,7 +194,7 @@ def impl(case):
                     res = [3]
                 except Exception as e:
                     res = [1, [S(cname(e)), Opt(inner_of(e), S)]]
-                    if not isinstance(e, urllib3.exceptions.HTTPError):
+                    if not isinstance(e, urllib3.exceptions.HTTPError) and not flags["newconn_fails"]:
                         problems.append("a raw %s reached the caller (not a urllib3 exception)" % cname(e))
                 if rq.get("wait") == "interrupt":
                     pool.pool.get = real_get
@@ -235,7 +239,7 @@ def in_model_domain(case):
     """the model takes release_conn at its default (= preload_content); requests that pass it explicitly are judged by the oracle only"""
     if case.get("sleep_interrupt") or any(a["recv"][0] == "resp" and isinstance(a["recv"][2], str) for a in case["script"]):
         return False        # the pause before a retry fails (unparseable Retry-After, interrupt while sleeping): oracle only
-    return all(rq.get("release") is None and rq.get("wait") is None and rq["disposal"] != "hold" for rq in case["reqs"])
+    return all(rq.get("release") is None and rq.get("wait") is None and rq.get("newconn") is None and rq["disposal"] != "hold" for rq in case["reqs"])
 
 
 # ---------------------------------------------------------------- oracle
@@ -401,6 +405,14 @@ def cases(rng, tier):
         for pol in (["int", 0], ["none"], ["false"]):
             out.append({"maxsize": maxsize, "block": True, "reqs": [dict(holder)] * maxsize + [dict(waiter, retries=pol), dict(waiter, retries=pol)],
                         "script": [ok] * 8})
+    # the connection object cannot be built (_new_conn raises) after a slot was taken: the slot goes back
+    failing = {"method": "GET", "preload": True, "retries": ["int", 0], "disposal": "read_all", "redirect": False, "newconn": "raise"}
+    plain = {"method": "GET", "preload": True, "retries": ["int", 0], "disposal": "read_all", "redirect": False}
+    for maxsize in (1, 2, 3):
+        for block in (True, False):
+            for pol in (["int", 0], ["int", 2], ["none"], ["false"]):
+                out.append({"maxsize": maxsize, "block": block, "reqs": [dict(failing, retries=pol)] * (maxsize + 1) + [dict(plain), dict(failing, retries=pol), dict(plain)],
+                            "script": [ok] * 8})
     # release_conn given explicitly, agreeing or not with preload_content: who gives the connection back, and how often
     probe = {"method": "GET", "preload": True, "retries": ["int", 0], "disposal": "read_all", "redirect": False}
     for f in firsts:
